@@ -387,6 +387,85 @@ impl Sweep for Matrix {
     }
 }
 
+// ------------------------------------------------------------------ (1b) mirrored relations
+
+/// `a >= b` and `b <= a` are the same statement, whatever the operands are: the
+/// reference does not say what a comparison with not-a-number answers, but each
+/// relational operator has to answer its mirror image's answer (and 0 or -1).
+struct Mirror;
+
+fn mirror_values() -> Vec<(V, String)> {
+    let mut v: Vec<(V, String)> = Vec::new();
+    v.push((V::Sng(f32::NAN), "(0%/0%)".into()));
+    v.push((V::Dbl(f64::NAN), "(1D308#*10%-1D308#*10%)".into()));
+    v.push((V::Sng(f32::NAN), "SQR(-1%)".into()));
+    for x in [V::Int(0), V::Int(1), V::Int(-1), V::Int(32767), V::Sng(0.0), V::Sng(1.5), V::Sng(f32::INFINITY), V::Sng(f32::NEG_INFINITY), V::Dbl(0.0), V::Dbl(-2.5), V::Dbl(f64::INFINITY), V::Dbl(1e300)] {
+        let s = src(&x);
+        v.push((x, s));
+    }
+    v
+}
+
+impl Sweep for Mirror {
+    fn name(&self) -> String {
+        "relational-mirror".into()
+    }
+    fn shards(&self) -> usize {
+        mirror_values().len()
+    }
+    fn run_shard(&self, shard: usize, ctx: &mut Ctx) {
+        let vals = mirror_values();
+        let (a, sa) = &vals[shard];
+        let truth = |v: &Option<V>| matches!(v, Some(V::Int(0)) | Some(V::Int(-1)));
+        for (b, sb) in &vals {
+            for (p, q) in [(BinOp::Ge, BinOp::Le), (BinOp::Gt, BinOp::Lt), (BinOp::Le, BinOp::Ge), (BinOp::Lt, BinOp::Gt), (BinOp::Eq, BinOp::Eq), (BinOp::Ne, BinOp::Ne)] {
+                if ctx.begin(&format!("API {} {} {} against {} {} {}", sa, p.text(), sb, sb, q.text(), sa)) {
+                    match guard(|| (api_bin(p, to_val(a), to_val(b)), api_bin(q, to_val(b), to_val(a)))) {
+                        Err(pn) => ctx.violation("mirror/panic", pn),
+                        Ok((Ok(x), Ok(y))) => {
+                            let (x, y) = (from_val(&x), from_val(&y));
+                            if !truth(&x) || !truth(&y) {
+                                ctx.violation(&format!("{}/not-0-or--1", p.text()), format!("{} {} {} gives {:?}, {} {} {} gives {:?}", sa, p.text(), sb, x, sb, q.text(), sa, y));
+                            } else if x != y {
+                                ctx.violation(&format!("{}-{}/mirror-disagrees", p.text(), q.text()), format!("{} {} {} gives {:?} but {} {} {} gives {:?}", sa, p.text(), sb, x, sb, q.text(), sa, y));
+                            }
+                            ctx.nontrivial(hash64(&(p, a.ty(), b.ty(), format!("{:?}", x))));
+                        }
+                        Ok((x, y)) => {
+                            if x.is_ok() != y.is_ok() {
+                                ctx.violation(&format!("{}-{}/mirror-disagrees", p.text(), q.text()), format!("{} {} {} and its mirror image: one is an error", sa, p.text(), sb));
+                            }
+                        }
+                    }
+                }
+                // the same through the VM, directly and through variables
+                for line in [
+                    format!("PRINT ({}{}{});({}{}{})", sa, p.text(), sb, sb, q.text(), sa),
+                    format!("X={}:Y#={}:PRINT (X{}Y#);(Y#{}X)", sa, sb, p.text(), q.text()),
+                    format!("PRINT -({}{}{});:IF {}{}{} THEN PRINT 1 ELSE PRINT 0", sa, p.text(), sb, sb, q.text(), sa),
+                ] {
+                    if ctx.begin(&line) {
+                        match vm_eval(&line) {
+                            Err(pn) => ctx.violation("mirror/panic", pn),
+                            Ok(Err(_)) => {}
+                            Ok(Ok(t)) => {
+                                let f: Vec<&str> = t.split_whitespace().collect();
+                                let ok = |x: &str| x == "0" || x == if line.starts_with("PRINT -") { "1" } else { "-1" };
+                                if f.len() != 2 || !ok(f[0]) || !ok(f[1]) {
+                                    ctx.violation(&format!("{}/not-0-or--1", p.text()), format!("{} prints {:?}", line, t));
+                                } else if f[0] != f[1] {
+                                    ctx.violation(&format!("{}-{}/mirror-disagrees", p.text(), q.text()), format!("{} prints {:?}", line, t));
+                                }
+                            }
+                        }
+                    }
+                }
+            }
+        }
+        ctx.sample();
+    }
+}
+
 // ------------------------------------------------------------------ (2) precedence
 
 #[derive(Clone, Copy, PartialEq, Debug)]
@@ -880,6 +959,7 @@ impl Check for C02 {
     fn sweeps(&self, tier: Tier) -> Vec<Box<dyn Sweep>> {
         vec![
             Box::new(Matrix),
+            Box::new(Mirror),
             Box::new(Functions),
             Box::new(Literals { n: tier.pick(6, 7) }),
             Box::new(Prec { depth3: false, wide: false }),
@@ -889,7 +969,7 @@ impl Check for C02 {
     fn meta(&self, tier: Tier) -> Meta {
         Meta {
             bound: format!(
-                "(1) 18 binary operators x all ordered pairs of 51 boundary values (12 Integer, 15 Single, 20 Double incl. four within Single resolution of a whole number and the infinities, 4 String) and unary -, +, NOT, through Operation::* (result variant compared exactly) and through PRINT with two type probes; (2) every ordered pair of the 20 operators (18 binary, unary -, NOT) in both tree shapes over all operand triples from {{7,2,3,0,-1,5}}, rendered with minimal and with full parentheses{}; (3) every literal spelling of length <={} over {{0 1 9 3 . E D + - ! # %}} that the manual's rules classify, plus radix literals and structured long spellings (1-9 mantissa digits x point position x 14 exponent spellings x suffix), observed in Line::ast(); (4) 14 numeric functions x the 51 values; (5) assignment of the 51 values to A%, A!, A#, A$, A, B%(2), C#(1,1) with read-back type probes",
+                "(1) 18 binary operators x all ordered pairs of 51 boundary values (12 Integer, 15 Single, 20 Double incl. four within Single resolution of a whole number and the infinities, 4 String) and unary -, +, NOT, through Operation::* (result variant compared exactly) and through PRINT with two type probes; (1b) every relational operator against its mirror image (a>=b and b<=a, ...) on all ordered pairs of 15 operands incl. three not-a-number expressions and the infinities, through Operation::*, PRINT, variables and IF; (2) every ordered pair of the 20 operators (18 binary, unary -, NOT) in both tree shapes over all operand triples from {{7,2,3,0,-1,5}}, rendered with minimal and with full parentheses{}; (3) every literal spelling of length <={} over {{0 1 9 3 . E D + - ! # %}} that the manual's rules classify, plus radix literals and structured long spellings (1-9 mantissa digits x point position x 14 exponent spellings x suffix), observed in Line::ast(); (4) 14 numeric functions x the 51 values; (5) assignment of the 51 values to A%, A!, A#, A$, A, B%(2), C#(1,1) with read-back type probes",
                 if tier == Tier::Thorough { ", and every operator triple of the 18 binary operators in all five tree shapes over operands {7,2,3,0,-1}" } else { ", and every operator triple of the 18 binary operators in all five tree shapes over operands {7,2,3}" },
                 tier.pick(6, 7)
             ),
